@@ -199,11 +199,10 @@ func (i *Inserter) ingestTableFromBlocks(columns []string, pk []uint32) ([]byte,
 	if err != nil {
 		return nil, err
 	}
-	sum, err := objects.SaveTable(i.db, buf.Bytes())
-	if err != nil {
-		return nil, err
-	}
-	i.logger.Info("saved table", "sum", sum)
+	tblBytes := make([]byte, buf.Len())
+	copy(tblBytes, buf.Bytes())
+	sumArr := meow.Checksum(0, tblBytes)
+	sum := sumArr[:]
 
 	// write and save table index
 	buf.Reset()
@@ -230,6 +229,13 @@ func (i *Inserter) ingestTableFromBlocks(columns []string, pk []uint32) ([]byte,
 			return nil, err
 		}
 	}
+
+	// the table object is saved last: once it exists, its index and profile do too
+	sum, err = objects.SaveTable(i.db, tblBytes)
+	if err != nil {
+		return nil, err
+	}
+	i.logger.Info("saved table", "sum", sum)
 
 	return sum, nil
 }
